@@ -61,8 +61,6 @@ func (V *Verifier) runLemmas(prop, scratch string) []*Oblig {
 	return out
 }
 
-func (V *Verifier) tryReplay(prop string, o *Oblig, dir string) bool { return false }
-
 func cmdSelftest(V *Verifier, pos []string, verbose bool) int {
 	fmt.Println("selftest: use /verif/selftest/run.sh")
 	return 0
